@@ -518,6 +518,9 @@ enum CollectorState {
     InDataset,
     /// The collector has read the pixel data element header.
     InPixelData,
+    /// The collector has read the last fragment (or the native value)
+    /// of the pixel data element.
+    PixelDataEnd,
 }
 
 impl<S, D, R> fmt::Debug for DicomCollector<S, D, R>
@@ -883,6 +886,11 @@ where
             self.source.parser();
         }
 
+        if self.state == CollectorState::PixelDataEnd {
+            // all fragments of the pixel data element have been retrieved
+            return Ok(None);
+        }
+
         if self.state != CollectorState::InPixelData {
             // skip until we reach the pixel data
 
@@ -925,7 +933,15 @@ where
                     debug_assert!(header.length().is_defined());
                     let len = header.length().0;
                     decoder.read_to_vec(len, to).context(ReadItemSnafu)?;
+                    // the value of the element is its only fragment
+                    self.state = CollectorState::PixelDataEnd;
                     return Ok(Some(len));
+                }
+                // end of the pixel data element: the values of later
+                // elements are not fragments
+                LazyDataToken::SequenceEnd => {
+                    self.state = CollectorState::PixelDataEnd;
+                    return Ok(None);
                 }
                 // fragment item data
                 LazyDataToken::LazyItemValue { len, decoder } => {
@@ -956,7 +972,7 @@ where
     /// Returns an error if the collector has alread read too far
     /// to obtain the basic offset table.
     pub fn read_basic_offset_table(&mut self, to: &mut Vec<u32>) -> Result<Option<u32>> {
-        if self.state == CollectorState::InPixelData {
+        if self.state == CollectorState::InPixelData || self.state == CollectorState::PixelDataEnd {
             return IllegalStateInPixelSnafu.fail().map_err(From::from);
         }
 
